@@ -144,6 +144,17 @@ class World(DuoWorld):
                 # the caller maps the URI to a class whose constructor fits only two-argument errors
                 caller.define(PickyError, "com.example.defined")
                 self.caller_map["com.example.defined"] = PickyError
+        cfg["reentrant_onUserError"] = ch.flag("reentrant-onUserError", 0.25)
+        if cfg["reentrant_onUserError"]:
+            # the application's error hook reports every endpoint failure by publishing it - a call into the session
+            # from inside the library's error handling; the router may hand over the next INVOCATION during that send()
+            def on_user_error(fail, msg):
+                self.run.probe("onUserError-publishes")
+                try:
+                    callee.publish("com.example.error-reports", "an endpoint failed")
+                except Exception as e:  # noqa
+                    self.run.log("onUserError-publish-raised", type(e).__name__)
+            callee.onUserError = on_user_error
         self.callee = self.add_side("callee", callee, cfg["ser_callee"])
         self.caller = self.add_side("caller", caller, cfg["ser_caller"])
         self.join_all()
@@ -251,6 +262,17 @@ class World(DuoWorld):
         if err is not None:
             self.run.violate("C18.own-call", "interrupt-raised:%s" % type(err).__name__, repr(err))
 
+    def on_sent_side(self, side, msg):
+        # the router hands the next waiting INVOCATION to the callee from inside the callee's own send()
+        if side is self.callee and isinstance(msg, self.M.Publish) and msg.topic == "com.example.error-reports" \
+                and self.unread(self.caller) and not getattr(self, "_in_reentrant_route", False):
+            self._in_reentrant_route = True
+            try:
+                self.run.probe("invocation-delivered-inside-send")
+                self.route_call(settle=False)  # (no nested loop iterations: the continuation runs when the outer step settles)
+            finally:
+                self._in_reentrant_route = False
+
     def do_call(self):
         ch = self.run.ch
         self.ops_left -= 1
@@ -269,7 +291,7 @@ class World(DuoWorld):
         self.settle()
         self.run.log("app", "call", rec.tok, rec.kind, rec.args)
 
-    def route_call(self):
+    def route_call(self, settle=True):
         M = self.M
         side = self.caller
         msg = side.inbox[side.cursor]
@@ -282,7 +304,8 @@ class World(DuoWorld):
         self.next_inv += 1
         rec.inv_id = self.next_inv
         err = self.deliver_to(self.callee, M.Invocation(rec.inv_id, 4242, args=[tok]))
-        self.settle()
+        if settle:
+            self.settle()
         if err is not None:
             self.run.violate("C18.own-call", "invocation-raised:%s" % type(err).__name__, repr(err))
 
